@@ -16,6 +16,7 @@ import (
 	"strconv"
 	"strings"
 
+	"github.com/dgryski/go-farm"
 	"github.com/pingcap/kvproto/pkg/kvrpcpb"
 	"github.com/pingcap/log"
 	"github.com/pkg/errors"
@@ -131,7 +132,7 @@ func keyErr(e *kvrpcpb.KeyError) string {
 	case e.AlreadyExist != nil:
 		return "AE(" + kid(e.AlreadyExist.Key) + ")"
 	case e.Deadlock != nil:
-		return "DL"
+		return fmt.Sprintf("DL(%s,%s,%s)", hx(e.Deadlock.LockTs), kid(e.Deadlock.LockKey), hashKey(e.Deadlock.DeadlockKeyHash))
 	case e.Retryable != "":
 		return "RT"
 	case e.CommitTsExpired != nil:
@@ -226,6 +227,33 @@ func dump(st *mocktikv.MVCCLevelDB) string {
 // deliberately not filled by the mock's ScanLock and not compared.
 func lockInfo(l *kvrpcpb.LockInfo) string {
 	return kid(l.Key) + "," + kid(l.PrimaryLock) + "," + hx(l.LockVersion) + "," + opc(l.LockType) + "," + hx(l.LockTtl) + "," + hx(l.LockForUpdateTs)
+}
+
+// hashKey maps farm.Fingerprint64(key) back to the key id (the model uses the key itself as "hash")
+func hashKey(h uint64) string {
+	for k := uint64(1); k <= nKeysDump; k++ {
+		if farm.Fingerprint64(kb(k)) == h {
+			return hx(k)
+		}
+	}
+	return "?" + hx(h)
+}
+
+// detectorDump: the wait-for graph, "txn>waitfor:key,waitfor:key txn>..." in ascending transaction order
+func detectorDump(st *mocktikv.MVCCLevelDB) string {
+	txns, m := st.ZZDetector().ZZDump()
+	if len(txns) == 0 {
+		return "-"
+	}
+	p := make([]string, len(txns))
+	for i, t := range txns {
+		e := make([]string, len(m[t]))
+		for j, x := range m[t] {
+			e[j] = hx(x.Txn) + ":" + hashKey(x.KeyHash)
+		}
+		p[i] = hx(t) + ">" + strings.Join(e, ",")
+	}
+	return strings.Join(p, " ")
 }
 
 func buildPrewrite(f []string) *kvrpcpb.PrewriteRequest {
@@ -388,7 +416,6 @@ func exec(st *mocktikv.MVCCLevelDB, c string) (res string) {
 		return errsc(st.Prewrite(buildPrewrite(f)))
 	case "pl": // pl primary start fu ttl mc rv ce loie force nowait key:ne,key:ne
 		req, force := buildPessLock(f)
-		st.ZZResetDeadlockDetector()
 		return canonPessLock(req, st.PessimisticLock(req), force)
 	case "pr": // pr s e keys start fu
 		return errsc(st.PessimisticRollback(kb(pu(f[1])), kb(pu(f[2])), keys(f[3]), pu(f[4]), pu(f[5])))
@@ -510,7 +537,7 @@ func (r *runner) begin(id, class string) {
 }
 func (r *runner) cmd(c string) {
 	res := exec(r.st, c)
-	fmt.Fprintf(out, "O\t%s\t%s\t%s\n", c, res, dump(r.st))
+	fmt.Fprintf(out, "O\t%s\t%s\t%s\t%s\n", c, res, dump(r.st), detectorDump(r.st))
 }
 func (r *runner) seq(id, class string, cmds []string) {
 	r.begin(id, class)
